@@ -136,7 +136,8 @@ def gen_values(rng, dtype, shape, vclass):
     fi = np.finfo(dtype)
     pool = np.array([fi.max if dtype == np.float32 else 1e150,
                      -(fi.max if dtype == np.float32 else 1e150),
-                     fi.tiny, 0.0, -0.0, 1.0])
+                     fi.tiny, 0.0, -0.0, 1.0,
+                     fi.smallest_subnormal, -fi.tiny / 4, fi.tiny * 0.75])
     return pool[rng.integers(0, len(pool), size=shape)].astype(dtype)
 
 
